@@ -12,6 +12,14 @@ CLAIMS = {
              ref="§3 C10", note=NOTE_COMMON + " SQLite driver, HTTP and byte-level JSON are outside the claim."),
  "C11": dict(text="bus.Replay over the paged and the streaming path: every log length, start offset, batch size and single-fault position within the bound is a symbolic variable; the oracle (gap-free prefix, nil iff complete, cause wrapped, no append, no handler) is discharged by the solver on every path.",
              ref="§3 C11", note=NOTE_COMMON),
+ "C09": dict(text="Persistent bus configuration: every subset of the other bus options with WithStore at every position, K publishes of value / pointer / custom-named events with symbolic fields; record visible to the handler of the same publish, one record per publish, type = EventType, decode = published value, offsets increasing - all discharged by the solver per path.",
+             ref="§3 C09", note=NOTE_COMMON + " encoding/json is a tree model built from the real struct tags (byte-level encoding trusted)."),
+ "C13": dict(text="Every pattern of ok / unencodable / rejected / deadline-expired outcomes over K publishes, with and without error handler and timeout: delivery unaffected, exactly one append attempt, one report per failure wrapping the cause, log = successes only, fresh replay subscriber sees exactly the successes.",
+             ref="§3 C13", note=NOTE_COMMON + " context is a Go-source model; deadline expiry is a symbolic choice made by the harness store."),
+ "C15": dict(text="One harness per event-type shape (value, pointer, custom name on value/pointer receiver, published as value/pointer) with an arbitrary SMT-string custom name: stored type = EventType, typed replay subscription and typed upcast source/target match it.",
+             ref="§3 C15", note=NOTE_COMMON),
+ "C16": dict(text="RegisterUpcastFunc as one inductive step from an arbitrary acyclic registry (acyclicity assumed through an uninterpreted rank function over SMT-string names): rejected iff empty/equal/nil/target-reaches-source; exhaustive call sequences over 3 names; apply() termination with raw upcasters returning arbitrary names, checked as an instruction budget.",
+             ref="§3 C16", note=NOTE_COMMON + " Registry size bounded by E edges; concurrent registrations are covered under the schedule bound only once the C16 concurrent entry is registered."),
 }
 
 NOT_APPLICABLE = {
